@@ -125,7 +125,7 @@ class Slice:
         return False
 
 
-def forward_taint(fn, sources, sanitizer=None, source_nodes=None, max_iter=50):
+def forward_taint(fn, sources, sanitizer=None, source_nodes=None, max_iter=50, tuple_summary=None):
     """Flow-sensitive forward taint over the CFG.
 
     sources: set of names tainted at entry (parameters).
@@ -155,6 +155,18 @@ def forward_taint(fn, sources, sanitizer=None, source_nodes=None, max_iter=50):
         if n.kind == 'stmt':
             if isinstance(a, ast.Assign):
                 is_t = tainted_expr(a.value, tin)
+                per_elem = None
+                if is_t and tuple_summary is not None and isinstance(a.value, ast.Call) and \
+                        len(a.targets) == 1 and isinstance(a.targets[0], (ast.Tuple, ast.List)):
+                    per_elem = tuple_summary(a.value, lambda e: tainted_expr(e, tin), len(a.targets[0].elts))
+                if per_elem is not None:
+                    for el, et in zip(a.targets[0].elts, per_elem):
+                        for nm in target_names(el):
+                            if et:
+                                t.add(nm)
+                            else:
+                                t.discard(nm)
+                    return t
                 for tg in a.targets:
                     for nm in target_names(tg):
                         if is_t:
@@ -226,3 +238,57 @@ def forward_taint(fn, sources, sanitizer=None, source_nodes=None, max_iter=50):
                 if s not in work:
                     work.append(s)
     return IN, tainted_expr
+
+
+def taint_by_flag(fn, sources, sanitizer, flag, values=(True, False)):
+    """forward_taint under each assumed value of a boolean flag parameter: CFG edges that contradict the
+    flag's current value are infeasible (the flag may be re-assigned constants inside the function).
+    Returns {flagvalue: (IN, tainted_expr)} where IN maps node id -> tainted names (union over the flag
+    states reaching the node)."""
+    from .cfg import explore, INFEASIBLE, build_cfg, node_defs, implied_facts
+    cfg = build_cfg(fn)
+    out = {}
+    for val in values:
+        # feasible (node, flagstate) pairs
+        def step(a, b, lab, st):
+            if flag in node_defs(a):
+                av = a.ast
+                if a.kind == 'stmt' and isinstance(av, ast.Assign) and isinstance(av.value, ast.Constant) and \
+                        isinstance(av.value.value, bool):
+                    st = av.value.value
+                else:
+                    st = None
+            if a.kind == 'test' and lab in ('T', 'F'):
+                for atom, truth in implied_facts(a.ast, lab == 'T'):
+                    if isinstance(atom, ast.Name) and atom.id == flag:
+                        if st is not None and st != truth:
+                            return INFEASIBLE
+                        st = truth
+            return st
+        seen = explore(cfg, [(cfg.entry, val)], step)
+        feasible_edges = set()
+        # recompute feasible edges
+        for (nid, st) in seen:
+            n = cfg.nodes[nid]
+            for m, lab in n.succ:
+                ns = step(n, m, lab, st)
+                if ns is not INFEASIBLE:
+                    feasible_edges.add((nid, m.id, lab))
+        out[val] = _forward_taint_restricted(fn, sources, sanitizer, feasible_edges)
+    return out
+
+
+def _forward_taint_restricted(fn, sources, sanitizer, feasible_edges):
+    """forward_taint on the sub-graph of feasible edges."""
+    cfg = build_cfg(fn)
+    saved = {}
+    for n in cfg.nodes:
+        saved[n.id] = (list(n.succ), list(n.pred))
+        n.succ = [(m, lab) for m, lab in n.succ if (n.id, m.id, lab) in feasible_edges]
+    for n in cfg.nodes:
+        n.pred = [(p, lab) for p, lab in saved[n.id][1] if (p.id, n.id, lab) in feasible_edges]
+    try:
+        return forward_taint(fn, sources, sanitizer=sanitizer)
+    finally:
+        for n in cfg.nodes:
+            n.succ, n.pred = saved[n.id]
